@@ -135,6 +135,24 @@ CLAIMED.update({
     ),
 })
 
+CLAIMED.update({
+    "C05": dict(
+        technique="writer/reader layout agreement between the kriging matrix and its right-hand sides (block stores with their path conditions), mirrored-store check, frame typestate, chunk-slice structure, kernel index structure (AST)",
+        text="Kriging matrix and right-hand sides use the same row layout under the same guards; sizes and paddings agree; every off-diagonal block has its mirrored block (symmetric system by construction), "
+        "the constraint block is zeroed last, measurement error only on the data diagonal; both sides use the same model's covariance family on distances between isometrized positions and the same drift functions; "
+        "chunks are disjoint contiguous slices each written from its own right-hand sides; kernel computes c^T M v and v^T M v; the 5 variants forward their parameters unchanged. Numerical equality with a direct "
+        "solve is not decided.",
+        ref="DESIGN.md section 4 C05",
+    ),
+    "C06": dict(
+        technique="def-use dominance of the variance clamp over all exits, wiring checks of exact mode, exhaustiveness of pseudo-inverse selection (AST)",
+        text="Every kriging variance returned or stored passes through max(sill - k^T K^-1 k, 0) followed only by shape-preserving operations (so it is never negative); the nugget-aware covariance is used on the "
+        "right-hand side iff exact, explicit errors are refused in exact mode, the default error is the model's nugget, exactness is immutable, sill / 0 are written exactly at zero lag; pseudo-inverse type validated "
+        "and dispatched exhaustively. Interpolation exactness, the sill bound and duplicate-point behaviour as values are not decided.",
+        ref="DESIGN.md section 4 C06",
+    ),
+})
+
 NOT_APPLICABLE = {
     "C01": "distributional property over seeds (ensemble mean/covariance at Monte-Carlo rate); no code-shape clause beyond those decided under C04/C11/C12 - needs sampling or quadrature, a different technique family",
 }
